@@ -17,6 +17,7 @@ TZ = datetime.timezone(datetime.timedelta(hours=1))
 T0 = datetime.datetime(2021, 3, 1, 0, 0, tzinfo=TZ)
 # strategies for which the minimum-power sliver is a catalogued finding; the others get no minimum power here
 MINPOWER_STRATS = ("greedy", "balanced", "distributed")
+TIME_LIMIT = 60
 STRATS = ["greedy", "balanced", "balanced_market", "peak_load_window", "flex_window", "distributed"]
 
 
@@ -311,14 +312,28 @@ def run(js, strategy, extra, options=None):
         if strategy == "flex_window":
             opts["LOAD_STRAT"] = "balanced"
         opts.update(options or {})
+        import signal
+
+        class _Timeout(BaseException):
+            pass
+
+        def _on_alarm(signum, frame):
+            raise _Timeout()
+        old_alarm = signal.signal(signal.SIGALRM, _on_alarm)
         with Rec() as rec, warnings.catch_warnings(), contextlib.redirect_stdout(io.StringIO()):
             warnings.simplefilter("ignore")
             s = Scenario(copy.deepcopy(js), tmp)
             try:
+                signal.alarm(TIME_LIMIT)
                 s.run(strategy, opts)
                 err = None
+            except _Timeout:
+                err = "Timeout: the run did not finish within %d s (plain floats, at most ~100 steps)" % TIME_LIMIT
             except Exception as e:  # noqa
                 err = repr(e)
+            finally:
+                signal.alarm(0)
+                signal.signal(signal.SIGALRM, old_alarm)
         if err:
             return {"error": err}
         n = s.step_i
